@@ -443,7 +443,7 @@ func runC13(c *Ctx) *Violation {
 	c.Distinct("streams", HashStr(string(s.data)))
 	L := len(s.data)
 
-	if mode == 0 && (c.Tier == "thorough" || L <= 160) {
+	if mode == 0 && (L <= 160 || c.Tier == "thorough" && L <= 500) {
 		// single-fault enumeration: every zero-read position x both EOF modes
 		base := &ReadSched{ErrAt: -1, CutAt: -1, ByteReader: false, Chunk: t.Draw(3)}
 		if base.Chunk == 2 {
@@ -490,7 +490,7 @@ func init() {
 		Level: "exploration",
 		Cases: func(tier string) int {
 			if tier == "thorough" {
-				return 10000000
+				return 4000000
 			}
 			return 300000
 		},
